@@ -18,6 +18,8 @@ import re
 import shutil
 import subprocess
 import time
+import sys
+sys.path.insert(0, os.path.dirname(os.path.abspath(__file__)))
 
 HERE = os.path.dirname(os.path.abspath(__file__))
 VERIF = os.path.dirname(HERE)
@@ -38,6 +40,14 @@ def _prep(crate):
     if os.path.exists(sh):
         shutil.rmtree(sh)
     shutil.copytree(os.path.join(VERIF, 'kani', 'shims'), sh)
+    # items cut verbatim out of /repo files (registered under "extract" in harnesses.json)
+    for reg in REG.values():
+        if reg['crate'] == crate:
+            for ex in reg.get('extract', []):
+                import extract
+                extract.REPO = REPO
+                txt = extract.cut_items(ex['file'], ex['items'])
+                open(os.path.join(dst, ex['to']), 'w').write('// GENERATED from %s -- verbatim items\n' % ex['file'] + txt)
     # path dependencies on /repo are written with the placeholder @REPO@
     ct = os.path.join(dst, 'Cargo.toml')
     s = open(ct).read().replace('@REPO@', REPO)
